@@ -208,6 +208,10 @@ func checkC16(c *Ctx) {
 				s = sdf.Box2D(sz, rd)
 				d = fmt.Sprintf("rbox(%g,%g,%g)", sz.X, sz.Y, rd)
 			}
+			if ru.P(0.08) { // a bare segment: no area, a box without height, but a distance like any other operand
+				s = sdf.Line2D(size*ru.R(1, 4), 0)
+				d = fmt.Sprintf("segment(%g)", size)
+			}
 			if layout == 4 { // exactly representable sizes and positions, no rotation: points can lie exactly on operand boundaries
 				q := float64(ru.IR(1, 8)) / 4
 				if ru.Bool() {
@@ -306,10 +310,19 @@ func checkC16(c *Ctx) {
 		// operand can dip below the distance to its own box (known finding), so such cases are queried inside that box only.
 		var nested *sdf.UnionSDF2
 		nestedLate := false
+		nestedPlain := false
 		if blend == "default" && layout != 4 && len(ops) >= 3 && ru.P(0.3) {
+			if ru.P(0.4) { // one member of the nested union is a bare segment reaching out of its sibling's box
+				seg := sdf.Transform2D(sdf.Line2D(scale*ru.R(2, 8), 0), sdf.Translate2d(ops[1].BoundingBox().Center()).Mul(sdf.Rotate2d(pickOne(ru, []float64{0, 0, ru.R(0, 6.28)})))) // mostly axis aligned: a box without height
+				cs := &countSDF2{s: seg}
+				counters = append(counters, cs)
+				ops[0] = cs
+				desc[0] = "segment through operand 1"
+			}
 			if in, ok := sdf.Union2D(ops[0], ops[1]).(*sdf.UnionSDF2); ok {
 				nested, nestedLate = in, ru.Bool()
-				if !nestedLate {
+				nestedPlain = ru.P(0.35) // a plain nested union: exact everywhere, so it is queried everywhere
+				if !nestedLate && !nestedPlain {
 					nested.SetMin(sdf.PolyMin(scale * ru.LogR(0.05, 1)))
 				}
 				rest := append([]sdf.SDF2{nested}, ops[2:]...)
@@ -337,7 +350,7 @@ func checkC16(c *Ctx) {
 			}
 			scratchArgs = append(scratchArgs[:0], farC, farC)
 		}
-		if nested != nil && nestedLate {
+		if nested != nil && nestedLate && !nestedPlain {
 			nested.SetMin(sdf.PolyMin(scale * ru.LogR(0.05, 1)))
 		}
 		k := scale * ru.LogR(0.01, 3)
@@ -354,6 +367,11 @@ func checkC16(c *Ctx) {
 		case "ExpMin":
 			u.SetMin(sdf.ExpMin(32 / scale * ru.R(0.2, 5)))
 		}
+		if blend != "default" && ru.P(0.25) {
+			// setter sequence: a blend is installed and then taken back by installing the plain minimum again
+			u.SetMin(math.Min)
+			blend = "default"
+		}
 		bb := u.BoundingBox()
 		pruned := false
 		nviol := 0
@@ -369,7 +387,7 @@ func checkC16(c *Ctx) {
 			if q == 0 {
 				mode = 5
 			}
-			if nested != nil {
+			if nested != nil && !nestedPlain {
 				mode = 6
 			}
 			switch mode {
